@@ -96,6 +96,10 @@ type c15Tx struct {
 	Have  bool    `json:"have"`  // node holds the payload from the start (public in-DAG transactions always do)
 	InDag bool    `json:"indag"` // in the node's DAG from the start; else held by peers only ("pending")
 	Prevs []int   `json:"prevs"` // selectors of earlier transactions (mod index)
+	// Share > 0: this private transaction carries the payload HASH of the earlier private transaction Share-1 (its
+	// creator copied the public hash; it does not know the content). The node never gets the bytes on its behalf from
+	// the start (Have is ignored).
+	Share int `json:"share,omitempty"`
 }
 
 type c15Peer struct {
@@ -366,12 +370,30 @@ func c15Gen(t *rapid.T) c15Case {
 	n := rapid.IntRange(1, 9).Draw(t, "ntx")
 	m := rapid.IntRange(1, n).Draw(t, "nindag")
 	pl := c15Pools{n: n}
+	var privIdx, shared []int
 	for i := 0; i < n; i++ {
 		tx := c15Tx{InDag: i < m}
 		tx.Priv = rapid.IntRange(0, 9).Draw(t, "priv") < 6
 		if tx.Priv {
 			tx.Pal = c15GenPal(t)
 			tx.Have = rapid.IntRange(0, 3).Draw(t, "have") > 0
+			if len(privIdx) > 0 && rapid.IntRange(0, 4).Draw(t, "share") == 0 {
+				// same payload hash as an earlier private transaction, other participant list
+				tx.Share = privIdx[rapid.IntRange(0, len(privIdx)-1).Draw(t, "share-with")] + 1
+				tx.Have = false
+				if rapid.IntRange(0, 3).Draw(t, "attacker-list") > 0 {
+					// the list a peer would craft to get at the content: itself (and maybe others) plus the node
+					var ds []string
+					for _, p := range c.Peers {
+						if p.DID != "" && p.DID != c15NodeDID && !c15Contains(ds, p.DID) && rapid.IntRange(0, 2).Draw(t, "list-peer") > 0 {
+							ds = append(ds, p.DID)
+						}
+					}
+					lines := c15Shuffle(t, append([]string{c15NodeDID}, ds...), "sh")
+					tx.Pal = &c15Pal{Mode: "shared-hash-crafted", Lines: lines, To: c15Recipients(lines)}
+				}
+			}
+			privIdx = append(privIdx, i)
 		} else {
 			tx.Have = true
 		}
@@ -394,6 +416,9 @@ func c15Gen(t *rapid.T) c15Case {
 			pl.privHeld = append(pl.privHeld, i)
 		default:
 			pl.privWanted = append(pl.privWanted, i)
+		}
+		if tx.Share > 0 {
+			shared = append(shared, i)
 		}
 		c.Txs = append(c.Txs, tx)
 	}
@@ -426,9 +451,43 @@ func c15Gen(t *rapid.T) c15Case {
 	no := rapid.IntRange(1, 12).Draw(t, "nops")
 	for len(c.Ops) < no {
 		k := rapid.SampledFrom([]string{"pq", "pq", "pq", "pq", "pq", "pq", "pq", "lq", "lq", "lq", "rq", "rq", "state", "gossip", "gossip", "set", "set",
-			"payload", "payload", "payload", "payload", "list", "list", "list", "retry", "retry", "gossipout", "diag"}).Draw(t, "op")
+			"payload", "payload", "payload", "payload", "list", "list", "list", "retry", "retry", "gossipout", "diag", "sharedflow", "sharedflow", "sharedflow"}).Draw(t, "op")
 		op := c15Op{K: k, Peer: rapid.IntRange(0, np-1).Draw(t, "oppeer")}
 		switch k {
+		case "sharedflow":
+			// a peer gets the node to admit a transaction that reuses another one's payload hash (if it is still pending),
+			// somebody else delivers the real payload before or after that, then the peer asks for "its" payload
+			if len(shared) == 0 {
+				continue
+			}
+			s := shared[rapid.IntRange(0, len(shared)-1).Draw(t, "shared-tx")]
+			origin := c.Txs[s].Share - 1
+			for c.Txs[origin].Share > 0 {
+				origin = c.Txs[origin].Share - 1
+			}
+			asker := op.Peer
+			for j, p := range c.Peers {
+				if p.Auth && p.DID != "" && c15Contains(c.Txs[s].Pal.Lines, p.DID) && rapid.IntRange(0, 3).Draw(t, "asker") > 0 {
+					asker = j
+				}
+			}
+			deliver := c15Op{K: "payload", Peer: rapid.IntRange(0, np-1).Draw(t, "deliverer"), Tx: []int{origin, origin}, Mode: "match"}
+			if rapid.Bool().Draw(t, "deliver-via-shared-ref") {
+				deliver.Tx = []int{s, origin}
+			}
+			when := rapid.IntRange(0, 2).Draw(t, "deliver-when") // 0: before admission, 1: after, 2: not at all
+			if when == 0 {
+				c.Ops = append(c.Ops, deliver)
+			}
+			if !c.Txs[s].InDag {
+				c.Ops = append(c.Ops, c15Op{K: "gossip", Peer: asker, Mode: "fit", A: 1, Tx: []int{s}},
+					c15Op{K: "list", Peer: asker, Mode: "lq-exact", Mode2: "priv-without", Tx: []int{s}})
+			}
+			if when == 1 {
+				c.Ops = append(c.Ops, deliver)
+			}
+			c.Ops = append(c.Ops, c15Op{K: "pq", Peer: asker, Tx: []int{s}})
+			continue
 		case "pq":
 			if len(happy) > 0 && rapid.IntRange(0, 2).Draw(t, "aim-happy") == 0 {
 				h := happy[rapid.IntRange(0, len(happy)-1).Draw(t, "happy")]
@@ -605,6 +664,7 @@ type c15BuiltTx struct {
 	tx       dag.Transaction
 	payload  []byte
 	needles  [][]byte // encodings of the payload that must not leak (private only)
+	root     int      // index of the transaction whose payload this one carries (itself unless Share)
 	nodeList []string // plaintext lines of the entries addressed to the node (nil if none)
 	readable bool     // some entry was encrypted to a key the node's store holds => nodeList is "the decrypted list"
 }
@@ -624,6 +684,7 @@ type c15Fixture struct {
 	seen  []int // per connection: number of sent envelopes already checked
 
 	badKeys map[string]bool // payload shelf keys already reported
+	knows   map[[2]int]bool // (peer, payload root): the peer itself handed these bytes to the node
 
 	lastState []*State
 	lastLQ    []*TransactionListQuery
@@ -777,7 +838,13 @@ func c15Setup(x *h.Ctx, c c15Case) *c15Fixture {
 	base := time.Date(2024, 1, 1, 0, 0, 0, 0, time.UTC)
 
 	for i, spec := range c.Txs {
-		b := c15BuiltTx{spec: spec, payload: c15Payload(i, spec.Priv)}
+		b := c15BuiltTx{spec: spec, payload: c15Payload(i, spec.Priv), root: i}
+		if spec.Share > 0 && spec.Priv && i > 0 {
+			if o := f.txs[(spec.Share-1)%i]; o.spec.Priv {
+				b.root, b.payload = o.root, o.payload
+				b.spec.Have = false
+			}
+		}
 		var epal [][]byte
 		if spec.Priv {
 			if spec.Pal == nil || len(spec.Pal.To) == 0 {
@@ -945,6 +1012,30 @@ func (f *c15Fixture) mustReceive(i, j int) bool {
 	return c15WellFormed(list)
 }
 
+// sharersAllow: the peer is entitled with respect to every private transaction in the DAG that carries the same payload.
+func (f *c15Fixture) sharersAllow(i, j int) bool {
+	for k := range f.txs {
+		if k != i && f.txs[k].spec.Priv && f.txs[k].root == f.txs[i].root && f.inDag(k) {
+			if ok, _ := f.mayReceive(k, j); !ok {
+				return false
+			}
+		}
+	}
+	return true
+}
+
+// learn records that peer j handed data to the node: if these are the bytes of a private payload, j knows them.
+func (f *c15Fixture) learn(j int, data []byte) {
+	for _, b := range f.txs {
+		if b.spec.Priv && bytes.Equal(b.payload, data) {
+			if f.knows == nil {
+				f.knows = map[[2]int]bool{}
+			}
+			f.knows[[2]int{j, b.root}] = true
+		}
+	}
+}
+
 func (f *c15Fixture) refOf(sel int) []byte {
 	switch {
 	case sel >= 0:
@@ -1051,6 +1142,9 @@ func (f *c15Fixture) checkSends(step int, op c15Op) [][]*Envelope {
 			case *Envelope_TransactionRangeQuery:
 				f.lastRQ[j] = msg.TransactionRangeQuery
 			}
+			// which private payloads occur in this envelope? (transactions sharing a payload hash share the bytes)
+			hits := map[int][]int{} // payload root -> private transactions carrying it
+			var roots []int
 			for i, b := range f.txs {
 				if !b.spec.Priv {
 					continue
@@ -1061,18 +1155,59 @@ func (f *c15Fixture) checkSends(step int, op c15Op) [][]*Envelope {
 						hit = true
 					}
 				}
-				if !hit {
-					continue
+				if hit {
+					if _, ok := hits[b.root]; !ok {
+						roots = append(roots, b.root)
+					}
+					hits[b.root] = append(hits[b.root], i)
 				}
+			}
+			for _, root := range roots {
 				f.x.Class("sent:private-payload-in-" + mt)
-				if mt != "TransactionPayload" {
-					f.x.Violate("leak:"+mt, "step %d (%s): payload of private tx %d (pal mode %s) occurs in a %s sent to peer %d %+v",
-						step, op.K, i, b.spec.Pal.Mode, mt, j, f.c.Peers[j])
+				if f.knows[[2]int{j, root}] {
+					// the peer handed these very bytes to the node earlier: nothing is disclosed to it
+					f.x.Class("sent:private-payload-back-to-its-supplier")
 					continue
 				}
-				if ok, why := f.mayReceive(i, j); !ok {
-					f.x.Violate("leak:TransactionPayload:"+why, "step %d (%s): payload of private tx %d (pal mode %s, lines %q, entries %v, alt %q) sent to peer %d %+v; key situation %s",
-						step, op.K, i, b.spec.Pal.Mode, b.spec.Pal.Lines, b.spec.Pal.To, b.spec.Pal.Alt, j, f.c.Peers[j], f.c.KeySit)
+				if mt != "TransactionPayload" {
+					f.x.Violate("leak:"+mt, "step %d (%s): payload of private tx %v occurs in a %s sent to peer %d %+v",
+						step, op.K, hits[root], mt, j, f.c.Peers[j])
+					continue
+				}
+				// The bytes are the payload of every transaction with that payload hash. The peer must be entitled with
+				// respect to each such private transaction the node has in its DAG (if the node has none of them in its
+				// DAG it should not be handing out the bytes at all: judge all).
+				answered := -1
+				for i := range f.txs {
+					if f.txs[i].tx.Ref().Equals(hash.FromSlice(env.GetTransactionPayload().TransactionRef)) {
+						answered = i
+					}
+				}
+				var judged []int
+				for _, i := range hits[root] {
+					if f.inDag(i) {
+						judged = append(judged, i)
+					}
+				}
+				if len(judged) == 0 {
+					judged = hits[root]
+				}
+				if len(judged) > 1 {
+					f.x.Class("sent:private-payload-shared-by-several-transactions")
+				}
+				for _, i := range judged {
+					ok, why := f.mayReceive(i, j)
+					if ok {
+						continue
+					}
+					b := f.txs[i]
+					sig := "leak:TransactionPayload:" + why
+					if answered >= 0 && answered != i {
+						// the response is for another transaction with the same payload hash
+						sig = "leak:TransactionPayload:shared-hash:" + why
+					}
+					f.x.Violate(sig, "step %d (%s): payload of private tx %d (pal mode %s, lines %q, entries %v, alt %q) sent to peer %d %+v in the response for tx %d; key situation %s",
+						step, op.K, i, b.spec.Pal.Mode, b.spec.Pal.Lines, b.spec.Pal.To, b.spec.Pal.Alt, j, f.c.Peers[j], answered, f.c.KeySit)
 				}
 			}
 		}
@@ -1108,7 +1243,7 @@ func (f *c15Fixture) apply(step int, op c15Op) {
 			if f.inDag(txi) && f.holds(txi) {
 				if !b.spec.Priv {
 					expect = b.payload
-				} else if f.mustReceive(txi, j) {
+				} else if f.mustReceive(txi, j) && f.sharersAllow(txi, j) {
 					expect = b.payload
 				}
 			}
@@ -1129,6 +1264,9 @@ func (f *c15Fixture) apply(step int, op c15Op) {
 				x.Class("pq:public-served")
 			case b.spec.Priv && got != nil:
 				x.Class("pq:private-served")
+				if b.root != txi || b.spec.Share > 0 {
+					x.Class("pq:shared-hash-transaction-served")
+				}
 			case b.spec.Priv:
 				if list, ok := f.decryptedList(txi); ok && f.c.Peers[j].Auth && f.c.Peers[j].DID != "" && !c15Listed(f.c.Peers[j].DID, list) {
 					for _, l := range list {
@@ -1287,6 +1425,7 @@ func (f *c15Fixture) apply(step int, op c15Op) {
 		if s >= 0 && len(data) > 0 && f.inDag(s%n) && f.txs[s%n].tx.PayloadHash().Equals(hash.SHA256Sum(data)) {
 			matches = true
 		}
+		f.learn(j, data)
 		err := p.handleTransactionPayload(f.ctx, conn, &Envelope{Message: &Envelope_TransactionPayload{TransactionPayload: &TransactionPayload{
 			ConversationID: []byte("c15-conv-tp"), TransactionRef: f.refOf(s), Data: data}}})
 		f.checkSends(step, op)
@@ -1365,6 +1504,7 @@ func (f *c15Fixture) apply(step int, op c15Op) {
 			case b.spec.Priv && op.Mode2 == "priv-wrong":
 				nt.Payload = c15Payload(1000+i, true)
 			}
+			f.learn(j, nt.Payload)
 			list = append(list, nt)
 		}
 		wasIn := make([]bool, n)
@@ -1445,6 +1585,9 @@ func c15Run(x *h.Ctx, c c15Case) {
 			continue
 		}
 		x.Class("pal:" + b.spec.Pal.Mode)
+		if b.root != i {
+			x.Class("tx:shares-payload-hash-with-earlier-private-tx")
+		}
 		list, readable := f.decryptedList(i)
 		switch {
 		case !readable:
